@@ -24,6 +24,7 @@ type spawnedGo struct {
 }
 
 type envState struct {
+	syncMaps map[*value]*omap // sync.Map contents by address of the sync.Map value
 	localLoc, utcLoc *value // the cells behind time.Local and time.UTC (zone model)
 	i       *interpreter
 	spawned []*spawnedGo
